@@ -159,4 +159,142 @@ def chainSigOf (tab : List (String × FunDef)) : ChainSig :=
 def chainNames (tab : List (String × FunDef)) : List String :=
   (tab.filter fun p => (decodeChain (chainSigOf tab) p.2).isSome).map (·.1)
 
+/-! ### chains with conditionals on `utils.is_next_token` (`Lemmas/ProgIfChain.lean`) -/
+
+/-- a production built from helper assignments to `iCurrent`, `iCurrent = iToken`, and
+    `if [not] utils.is_next_token("x", iCurrent, lObjects): … [else: …]` (nested), ending in `return iCurrent`;
+    `skip` ends a branch that falls through -/
+inductive ICmd where
+  | ret
+  | skip
+  | init (k : ICmd)                                        -- iCurrent = iToken
+  | step (s : Step) (k : ICmd)                             -- iCurrent = helper(…, cur, lObjects)
+  | ite (neg : Bool) (str : Str) (thn els k : ICmd)        -- if [not] is_next_token(str, iCurrent, lObjects)
+
+def condExpr (kIs : Nat) (neg : Bool) (str : Str) : Expr :=
+  if neg then .not (.callF kIs [.str str, .var 2, .var 1]) else .callF kIs [.str str, .var 2, .var 1]
+
+/-- statements of an `ICmd` whose current index variable is `cur` (0 = `iToken` before the first assignment, then 2) -/
+def icmdStmts (K : ChainSig) (kIs : Nat) : Nat → ICmd → List Stmt
+  | cur, .ret => [.ret (.var cur)]
+  | _, .skip => []
+  | _, .init k => .assign (.var 2) (.var 0) :: icmdStmts K kIs 2 k
+  | cur, .step s k => .assign (.var 2) (.callF (s.fn K) (s.argsE cur 1)) :: icmdStmts K kIs 2 k
+  | _, .ite neg str thn els k =>
+    .ite (condExpr kIs neg str) (icmdStmts K kIs 2 thn) (icmdStmts K kIs 2 els) :: icmdStmts K kIs 2 k
+
+def icmdDef (K : ChainSig) (kIs : Nat) (c : ICmd) : FunDef :=
+  { nparams := 2, nlocals := 3, defaults := [], body := icmdStmts K kIs 0 c }
+
+def ICmd.hasIte : ICmd → Bool
+  | .ret | .skip => false
+  | .init k => k.hasIte
+  | .step _ k => k.hasIte
+  | .ite _ _ _ _ _ => true
+
+/-- nesting depth of conditionals (fuel) and number of nodes (step budget) -/
+def ICmd.depth : ICmd → Nat
+  | .ret | .skip => 0
+  | .init k => k.depth
+  | .step _ k => k.depth
+  | .ite _ _ t e k => max (max t.depth e.depth + 1) k.depth
+
+def ICmd.cost : ICmd → Nat
+  | .ret | .skip => 0
+  | .init k => k.cost
+  | .step _ k => k.cost + 1
+  | .ite _ _ t e k => t.cost + e.cost + k.cost + 1
+
+/-- a main program ends in `return` on every path that reaches its end; a branch may fall through -/
+def ICmd.endsRet : ICmd → Bool
+  | .ret => true
+  | .skip => false
+  | .init k => k.endsRet
+  | .step _ k => k.endsRet
+  | .ite _ _ _ _ k => k.endsRet
+
+/-- index variable discipline: `iCurrent = iToken` only first, conditionals only once `iCurrent` is bound -/
+def ICmd.wf : Nat → ICmd → Bool
+  | _, .ret | _, .skip => true
+  | cur, .init k => cur == 0 && k.wf 2
+  | _, .step _ k => k.wf 2
+  | cur, .ite _ _ t e k => cur == 2 && t.wf 2 && e.wf 2 && k.wf 2
+
+/-- the index variable at the end of a block that falls through -/
+def ICmd.endCur : Nat → ICmd → Nat
+  | cur, .ret | cur, .skip => cur
+  | _, .init k => k.endCur 2
+  | _, .step _ k => k.endCur 2
+  | _, .ite _ _ _ _ k => k.endCur 2
+
+def decodeStep (K : ChainSig) (cur : Nat) : Stmt → Option Step
+  | .assign (.var 2) (.callF k [.clsC c, .var x, .var 1]) =>
+    if k == K.kAnt && x == cur then some (.ant c) else none
+  | .assign (.var 2) (.callF k [.str s, .clsC c, .var x, .var 1]) =>
+    if x == cur then
+      (if k == K.kIf then some (.aif s c) else if k == K.kIfNot then some (.aifnot s c)
+       else if k == K.kReq then some (.areq s c) else none)
+    else none
+  | _ => none
+
+def decodeCond (kIs : Nat) : Expr → Option (Bool × Str)
+  | .callF k [.str s, .var 2, .var 1] => if k == kIs then some (false, s) else none
+  | .not (.callF k [.str s, .var 2, .var 1]) => if k == kIs then some (true, s) else none
+  | _ => none
+
+/-- recognise the statements of an `ICmd` (fuel bounds the number of statements, nested ones included) -/
+def decodeI (K : ChainSig) (kIs : Nat) : Nat → Nat → List Stmt → Option ICmd
+  | 0, _, _ => none
+  | _ + 1, _, [] => some .skip
+  | _ + 1, cur, [.ret (.var v)] => if v == cur then some .ret else none
+  | f + 1, cur, .assign (.var 2) (.var 0) :: rest =>
+    if cur == 0 then (decodeI K kIs f 2 rest).map .init else none
+  | f + 1, cur, .ite c t e :: rest =>
+    if cur == 2 then
+      (match decodeCond kIs c, decodeI K kIs f 2 t, decodeI K kIs f 2 e, decodeI K kIs f 2 rest with
+        | some (neg, s), some a, some b, some k => some (.ite neg s a b k)
+        | _, _, _, _ => none)
+    else none
+  | f + 1, cur, s :: rest =>
+    match decodeStep K cur s, decodeI K kIs f 2 rest with
+    | some a, some k => some (.step a k)
+    | _, _ => none
+
+def decodeIfChain (K : ChainSig) (kIs : Nat) (fd : FunDef) : Option ICmd :=
+  if fd.nparams == 2 && fd.nlocals == 3 && fd.defaults.isEmpty && !fd.isOpaque then
+    (match decodeI K kIs 64 0 fd.body with
+      | some c => if c.endsRet && c.wf 0 then some c else none
+      | none => none)
+  else none
+
+def isNextIdx (tab : List (String × FunDef)) : Nat := (funIdx "utils.is_next_token" tab).getD 0
+
+/-- names of the functions that are chains with at least one conditional -/
+def ifChainNames (tab : List (String × FunDef)) : List String :=
+  (tab.filter fun p => match decodeIfChain (chainSigOf tab) (isNextIdx tab) p.2 with
+    | some c => c.hasIte
+    | none => false).map (·.1)
+
+/-! ### detectors: `if utils.is_next_token("x", iToken, lObjects): return True` … `return False` (`Lemmas/ProgDetect.lean`) -/
+
+def detectStmts (kIs : Nat) : List Str → List Stmt
+  | [] => [.ret (.bool false)]
+  | s :: ss => .ite (.callF kIs [.str s, .var 0, .var 1]) [.ret (.bool true)] [] :: detectStmts kIs ss
+
+def detectDef (kIs : Nat) (strs : List Str) : FunDef :=
+  { nparams := 2, nlocals := 2, defaults := [], body := detectStmts kIs strs }
+
+def decodeDetect (kIs : Nat) : List Stmt → Option (List Str)
+  | [.ret (.bool false)] => some []
+  | .ite (.callF k [.str s, .var 0, .var 1]) [.ret (.bool true)] [] :: rest =>
+    if k == kIs then (decodeDetect kIs rest).map (s :: ·) else none
+  | _ => none
+
+def decodeDetectFun (kIs : Nat) (fd : FunDef) : Option (List Str) :=
+  if fd.nparams == 2 && fd.nlocals == 2 && fd.defaults.isEmpty && !fd.isOpaque then decodeDetect kIs fd.body else none
+
+/-- names of the detectors of the table -/
+def detectNames (tab : List (String × FunDef)) : List String :=
+  (tab.filter fun p => (decodeDetectFun (isNextIdx tab) p.2).isSome).map (·.1)
+
 end Vsgm.Prog
